@@ -32,8 +32,8 @@ func keyspaceRules(c *Ctx) {
 		base = NewBase(Hooks{EveryCall: func(x *Exec, call *ast.CallExpr, s St) []St {
 			if calleeKey(x.Fn.Info, call) == kAvail {
 				n++
-				kt, _ := base.Term(x, identNamed(x, "kind"), s)
-				zt, _ := base.Term(x, identNamed(x, "zstd"), s)
+				kt, _ := base.Term(x, roleIdent(x, "kind", "param:1"), s)
+				zt, _ := base.Term(x, roleIdent(x, "zstd", "param:5"), s)
 				isCAS, known := relLookup(s, "#1", "==", kt)
 				ok := s.Get("b:"+zt) == "false" || (known && isCAS)
 				R.Check(ok, "R15b", c.Cfg+"get:lookup-guard", c.P.Pos(call.Pos()), "the lookup is reached with zstd only for kind == CAS", "a compressed read of a non-CAS key space can reach the lookup", x.Trace()...)
@@ -398,7 +398,7 @@ func keyspaceRules(c *Ctx) {
 				site := fmt.Sprintf("%s%s:%s#%d", c.Cfg, fnName, op, callOrdinal(x, call))
 				if op == "GetZstd" {
 					// R15b: where the handler distinguishes kinds, a compressed read is CAS-only
-					if ke := identNamed(x, "kind"); ke != nil {
+					if ke := roleIdent(x, "kind", "lhs:server.parseRequestURL:0"); ke != nil {
 						if t := x.Fn.Info.TypeOf(ke); t != nil && strings.HasSuffix(t.String(), "cache.EntryKind") {
 							kt, _ := base.Term(x, ke, s)
 							isCAS := s.Get("c:"+kt) != "" && s.Get("c:"+kt) == constOfKind(c, "CAS")
